@@ -482,3 +482,110 @@ func bigSub(e *Engine, dst Value, x, y *bigVal) Value {
 	}
 	return bigSet(dst, res)
 }
+
+func init() {
+	B := func(name string, h intrinsic) { intrinsics["(*math/big.Int)."+name] = h }
+	B("SetBit", func(e *Engine, fr *frame, a []Value) Value {
+		x := bigGet(a[1])
+		i, b := a[2].(Term), a[3].(Term)
+		if !i.IsConst() || !b.IsConst() {
+			unsupported("big.SetBit with symbolic position")
+		}
+		if c, ok := x.concrete(); ok {
+			return bigSet(a[0], bigConst(new(big.Int).SetBit(c, i.Int(), uint(b.Int()))))
+		}
+		w := x.w
+		if i.Int() >= w {
+			w = (i.Int()/8 + 1) * 8
+		}
+		mask := BVb(w, new(big.Int).Lsh(big.NewInt(1), uint(i.Int())))
+		t := padTo(x.t, w)
+		if b.Int() == 1 {
+			t = Or(t, mask)
+		} else {
+			t = And(t, Not(mask))
+		}
+		return bigSet(a[0], &bigVal{w, t, x.neg})
+	})
+	bitop := func(name string, f func(a, b Term) Term, cf func(z, x, y *big.Int) *big.Int) {
+		B(name, func(e *Engine, fr *frame, a []Value) Value {
+			x, y := bigGet(a[1]), bigGet(a[2])
+			if xc, ok := x.concrete(); ok {
+				if yc, ok := y.concrete(); ok {
+					return bigSet(a[0], bigConst(cf(new(big.Int), xc, yc)))
+				}
+			}
+			if x.neg || y.neg {
+				unsupported("big.%s with negative symbolic operand", name)
+			}
+			w := bigW(x, y)
+			return bigSet(a[0], &bigVal{w, f(padTo(x.t, w), padTo(y.t, w)), false})
+		})
+	}
+	bitop("And", And, (*big.Int).And)
+	bitop("Or", Or, (*big.Int).Or)
+	bitop("Xor", Xor, (*big.Int).Xor)
+	B("Rsh", func(e *Engine, fr *frame, a []Value) Value {
+		x := bigGet(a[1])
+		n := a[2].(Term)
+		if !n.IsConst() {
+			unsupported("big.Rsh by a symbolic amount")
+		}
+		if c, ok := x.concrete(); ok {
+			return bigSet(a[0], bigConst(new(big.Int).Rsh(c, uint(n.Int()))))
+		}
+		return bigSet(a[0], &bigVal{x.w, Lshr(x.t, BV(x.w, int64(n.Int()))), x.neg})
+	})
+	B("Lsh", func(e *Engine, fr *frame, a []Value) Value {
+		x := bigGet(a[1])
+		n := a[2].(Term)
+		if !n.IsConst() {
+			unsupported("big.Lsh by a symbolic amount")
+		}
+		if c, ok := x.concrete(); ok {
+			return bigSet(a[0], bigConst(new(big.Int).Lsh(c, uint(n.Int()))))
+		}
+		w := x.w + (n.Int()+7)/8*8
+		return bigSet(a[0], &bigVal{w, Shl(padTo(x.t, w), BV(w, int64(n.Int()))), x.neg})
+	})
+	B("Bit", func(e *Engine, fr *frame, a []Value) Value {
+		x := bigGet(a[0])
+		i := a[1].(Term)
+		if !i.IsConst() {
+			unsupported("big.Bit at a symbolic position")
+		}
+		if i.Int() >= x.w {
+			return BV(64, 0)
+		}
+		return ZExt(Extract(i.Int(), i.Int(), x.t), 64)
+	})
+	divlike := func(name string, cf func(z, x, y *big.Int) *big.Int) {
+		B(name, func(e *Engine, fr *frame, a []Value) Value {
+			x, y := bigGet(a[1]), bigGet(a[2])
+			if xc, ok := x.concrete(); ok {
+				if yc, ok := y.concrete(); ok {
+					if yc.Sign() == 0 {
+						e.goPanicStr("division by zero")
+					}
+					return bigSet(a[0], bigConst(cf(new(big.Int), xc, yc)))
+				}
+			}
+			w := bigW(x, y)
+			uf("big"+name+fmt.Sprint(w), []int{w, w}, w)
+			return bigSet(a[0], &bigVal{w, App("big"+name+fmt.Sprint(w), w, padTo(x.t, w), padTo(y.t, w)), x.neg != y.neg})
+		})
+	}
+	divlike("Div", (*big.Int).Div)
+	divlike("Quo", (*big.Int).Quo)
+	B("GCD", func(e *Engine, fr *frame, a []Value) Value {
+		x, y := bigGet(a[3]), bigGet(a[4])
+		if xc, ok := x.concrete(); ok {
+			if yc, ok := y.concrete(); ok {
+				return bigSet(a[0], bigConst(new(big.Int).GCD(nil, nil, xc, yc)))
+			}
+		}
+		w := bigW(x, y)
+		uf("biggcd"+fmt.Sprint(w), []int{w, w}, w)
+		return bigSet(a[0], &bigVal{w, App("biggcd"+fmt.Sprint(w), w, padTo(x.t, w), padTo(y.t, w)), false})
+	})
+}
